@@ -111,6 +111,8 @@ def run_pipeline(rec, rnd, cycles, idx, clear_p):
             ext_tb = {k: TestbenchIO(AdapterTrans.create(mth)) for k, mth in dut.exts.items()}
             top = ModuleConnector(circ, *mocks.values(), *ext_tb.values())
             sim = PysimSimulator(top, max_cycles=cycles + 80)
+            from .. import txsan
+            txsan.maybe_attach(sim, case)
         except Exception:
             rec.check("builder_accepts_well_formed_pipeline", False, case=case, detail=traceback.format_exc()[-1500:])
             return
